@@ -194,8 +194,58 @@ def extract(repo):
     return progs, inits, notes
 
 
+def stmt_shape(n):
+    k = n.get("kind")
+    ch = n.get("inner", [])
+    if k == "CompoundStmt":
+        return "{" + ";".join(stmt_shape(c) for c in ch) + "}"
+    if k == "WhileStmt":
+        return "while(" + shape(ch[0]) + ")" + stmt_shape(ch[1])
+    if k == "ForStmt":
+        return "for(" + ";".join(shape(c) if c else "" for c in ch[:-1]) + ")" + stmt_shape(ch[-1])
+    if k == "DoStmt":
+        return "do" + stmt_shape(ch[0]) + "while(" + shape(ch[1]) + ")"
+    if k == "CXXTryStmt":
+        return "try" + stmt_shape(ch[0]) + "".join(stmt_shape(c) for c in ch[1:])
+    if k == "CXXCatchStmt":
+        return "catch" + stmt_shape(ch[-1])
+    if k == "BreakStmt":
+        return "break"
+    if k == "ContinueStmt":
+        return "continue"
+    if k == "ReturnStmt":
+        return "return"
+    if k == "IfStmt":
+        return "if(" + shape(ch[0]) + ")" + stmt_shape(ch[1]) + ("else" + stmt_shape(ch[2]) if len(ch) > 2 else "")
+    if k == "CXXThrowExpr":
+        return "throw"
+    if k in TRANSPARENT and len(ch) == 1:
+        return stmt_shape(ch[0])
+    return shape(n)
+
+
+# what WaitSemaphore does when Semaphore::wait() is interrupted by a signal (EINTR = 4 on Linux)
+WAIT_SHAPES = {
+    "{while(1){try{on.wait();break}catch{if((e.get_native_error() != 4)){throw}}}}": "EintrRetry",
+    "{try{on.wait()}catch{if((e.get_native_error() != 4)){throw}}}": "EintrReturnAsAcquired",
+}
+
+
+def extract_wait(repo):
+    tu = os.path.join(os.path.dirname(os.path.abspath(__file__)), "inst", "pcqueue_tu.cc")
+    docs = cg.clang_ast(tu, "util::WaitSemaphore", [repo])
+    for d in docs:
+        if d.get("kind") == "FunctionDecl" and d.get("name") == "WaitSemaphore":
+            body = [c for c in d.get("inner", []) if c.get("kind") == "CompoundStmt"]
+            if body:
+                s = stmt_shape(body[0])
+                return WAIT_SHAPES.get(s, "EintrOpaque"), s
+    raise cg.Unsupported("util::WaitSemaphore not found")
+
+
 def gallina(repo):
     progs, inits, notes = extract(repo)
+    waction, wshape = extract_wait(repo)
     out = ["(* GENERATED by /verif/translator/pcqueue_ops.py from util/pcqueue.hh -- do not edit.",
            "   Regenerated from /repo's current working tree on every check run: the synchronisation operations on the",
            "   normal path of PCQueue::Produce(const T&), PCQueue::Consume(T&) and the initialisers of PCQueue(size_t). *)",
@@ -208,6 +258,9 @@ def gallina(repo):
     out.append("Definition consume_prog : list op :=\n  [%s]." % "; ".join(progs["consume"]))
     out.append("")
     out.append("Definition ctor_prog : list init :=\n  [%s]." % "; ".join(inits))
+    out.append("")
+    out.append("(* WaitSemaphore: %s *)" % wshape.replace("*)", "* )"))
+    out.append("Definition wait_on_eintr : eintr_action := %s." % waction)
     return "\n".join(out) + "\n"
 
 
